@@ -369,6 +369,26 @@ func selftest(verbose bool) error {
 	for _, tc := range []struct {
 		fn  string
 		bad bool
+	}{{"RewriteOk", false}, {"RewriteBad", true}} {
+		f := u.Func(fx, tc.fn)
+		if f == nil {
+			return fmt.Errorf("fixture %s missing", tc.fn)
+		}
+		expect("foreign-struct-store/"+tc.fn, len(storesToForeignStructs(f, func(n *types.Named) bool { return strings.HasSuffix(n.Obj().Name(), "Output") })) > 0, tc.bad)
+	}
+	for _, tc := range []struct {
+		fn  string
+		bad bool
+	}{{"SdkLogOk", false}, {"SdkLogBad", true}} {
+		f := u.Func(fx, tc.fn)
+		if f == nil {
+			return fmt.Errorf("fixture %s missing", tc.fn)
+		}
+		expect("sdk-log-switch/"+tc.fn, len(sdkLogSwitches(f)) > 0, tc.bad)
+	}
+	for _, tc := range []struct {
+		fn  string
+		bad bool
 	}{{"GoLoopOk", false}, {"GoLoopBad", true}} {
 		f := u.Func(fx, tc.fn)
 		if f == nil {
